@@ -1677,7 +1677,7 @@ class MindsDBParser(Parser):
     def kw_parameter(self, p):
         key = getattr(p, 'identifier', None) or getattr(p, 'identifier0', None)
         assert key is not None
-        key = '.'.join(key.parts)
+        key = '.'.join(str(part) for part in key.parts)
         return {key:p[2]}
 
     # json
